@@ -262,6 +262,7 @@ func runC01(w *eng.W) {
 		w.Sample("pathological", g)
 		c01Gen.Do(w, g)
 	})
+	neighbourTexts(w, "neighbour-code-points", do)
 	lookaheadForms(w, "lookahead-forms", do)
 	tokenSeqs(w, "full-seq", SigmaFull, pick(3, 4), do)
 	listForms(w, "list-forms", do)
